@@ -309,8 +309,13 @@ static CMutableTransaction CoinbaseTx(int height, const CaseSpec& c, int variant
     if (c.cb_script_sig) ss = *c.cb_script_sig;
     else ss = Cat({ref::HeightPush(height), {0x01, (unsigned char)(0x2a + variant)}, c.cb_tail});
     cb.vin[0].scriptSig = S(ss);
-    // the claimed amount (subsidy minus a case-specific amount) makes every case's block unique
-    cb.vout.emplace_back(ck::RefLedger::Subsidy(height, Params().GetConsensus().nSubsidyHalvingInterval) - (CAmount)(vx::fnv1a(c.name) % 1000000007ULL), ck::OpTrueSpk());
+    cb.vout.emplace_back(ck::RefLedger::Subsidy(height, Params().GetConsensus().nSubsidyHalvingInterval), ck::OpTrueSpk());
+    { // a case-specific data output makes every case's block unique
+        uint64_t tag = vx::fnv1a(c.name);
+        Bytes o{0x6a, 0x08};
+        for (int i = 0; i < 8; i++) o.push_back((tag >> (8 * i)) & 0xff);
+        cb.vout.emplace_back(0, S(o));
+    }
     for (auto& o : c.cb_outs) cb.vout.emplace_back(0, S(o));
     return cb;
 }
